@@ -118,6 +118,7 @@ fn opts() -> Opts {
     o.tags_on_wrappers = true;
     o.blank_wrappers = true;
     o.first_line_empty_pct = 5;
+    o.multiline_tag_pct = 10;
     o
 }
 
